@@ -34,9 +34,20 @@ constexpr int kMaxRecs = 8192;
 extern Rec g_recs[kMaxRecs];
 extern int g_nrecs;
 
+}  // namespace vrt
+// Optional observer (own TU, always linked last): writes one char per library table, '0' while the
+// table's storage is still all-zero (not yet dynamically initialised), '1' afterwards.
+extern "C" int vrt_observe(char* out, int cap) __attribute__((weak));
+namespace vrt {
+
 inline void mark(char c, int id) {
-  char buf[32];
-  int n = std::snprintf(buf, sizeof buf, "@%c %d\n", c, id);
+  char buf[768];
+  int n = std::snprintf(buf, 32, "@%c %d", c, id);
+  if (c == 'B' && vrt_observe != nullptr) {
+    buf[n++] = ' ';
+    n += vrt_observe(buf + n, 700);
+  }
+  buf[n++] = '\n';
   if (n > 0) {
     ssize_t ignored = ::write(2, buf, static_cast<size_t>(n));
     (void)ignored;
